@@ -57,7 +57,7 @@ PipeInv == R.kind = "pipe" =>
              division |-> R.division, ev |-> R.ev, ev1 |-> <<>>]
    IN /\ (R.convOk \/ e.may)                    \* (a note outside the key may be refused by text conv: C03)
       /\ (R.convOk => /\ R.writeOk              \* everything text conv prints is accepted by write
-                       /\ C01Ok(w) /\ C02Written(w) /\ C07Ok(w))     \* and means the chords, durations, settings and texts that were written
+                       /\ C01Ok(w) /\ C02Written(w) /\ C07Written(w))     \* and means the chords, durations, settings and texts that were written
 
 \* ------------------------------------------------------------------ scalar fields through write parse
 SameValue(field, a, b) ==
